@@ -17,7 +17,9 @@ from harness.common import canon, dec_val, enc_val, ensure_impl_on_path, known_p
 GEN_MODULES = ['excelutil', 'aggregates', 'stats']
 
 ASSUMPTIONS = [
-    "failures are injected through the documented mechanisms only: an unknown function name, or a plugin "
+    "failures are injected through the documented mechanisms only: an unknown function name (NOSUCHFUNC, a made-up "
+    "dotted name, or an Excel function of lib/function_info_data.py that none of ExcelFormula.default_modules "
+    "implements — the pool is computed from the tree under test on every run), or a plugin "
     "module (plugins=) whose function raises on its k-th call; nothing inside pycel is patched",
     "the theorems (coq/Props/C09.v) are about workbooks WITHOUT stored results (in-memory workbooks, as in "
     "every run here), any formula semantics that may fail, any order of evaluation of the new range nodes; "
@@ -151,8 +153,11 @@ def run(ctx):
     plugin = importlib.import_module('verif_c09_plugin')
     ctx.extra['rule'] = (
         "single-sheet DAG workbooks of 5-9 cells (C01 generator); every formula cell in turn is replaced by a call "
-        "of an unknown function or of a plugin function that raises (from its first or its second call on), keeping "
-        "its precedents; then: evaluate every dependant twice (must raise a pycel error both times), evaluate every "
+        "of an unknown function (NOSUCHFUNC, a made-up dotted name, or an Excel function pycel does not implement, "
+        "dotted or not, possibly spelled _xlfn.NAME) or of a plugin function that raises (from its first or its "
+        "second call on), keeping its precedents; then, starting from a randomly chosen cell (the failing cell or one "
+        "of its dependants): evaluate the cell and every dependant twice (must raise a pycel error both times, a "
+        "retry on a built target with the same class and message, the failing cell always as on a fresh model), evaluate every "
         "unrelated cell (must equal a fresh compile), overwrite the failing cell with a constant and evaluate the "
         "dependants (must equal a fresh compile with that constant), then write an upstream input; plain and "
         "iterative mode; distinct = distinct (workbook, failing cell, fault kind, mode)")
